@@ -310,6 +310,15 @@ func (rt *Runtime) helperData() map[string]interface{} {
 			}
 			return v, nil
 		},
+		"pv3": func(id int, v interface{}) (interface{}, int, error) {
+			if rt.enter(id, "", pkValue) {
+				if rt.Kind == fkWrongKind {
+					return wrongKind{"value"}, 1, nil
+				}
+				return nil, 2, rt.Fault
+			}
+			return v, 3, nil
+		},
 		"pe": func(id int) error {
 			if rt.enter(id, "", pkErr) {
 				return rt.Fault
